@@ -79,7 +79,7 @@ func (h *H) phaseTyped() {
 		if h.drv != nil {
 			outs, err := h.drv.AskAll(lines)
 			if err != nil {
-				res.Note("driver: %v", err)
+				res.Fatalf("driver: %v", err)
 				h.drv = nil
 			} else {
 				res.Compared(len(outs))
@@ -116,7 +116,7 @@ func (h *H) typedCase(st storable, ci int, v reflect.Value, mode string) {
 	// model encoder on the rendered value (map entries in reverse canonical order)
 	txt, err := RenderString(st.t, v, true)
 	if err != nil {
-		res.Note("typed: render %s: %v", st.name, err)
+		res.Fatalf("typed: render %s: %v", st.name, err)
 		return
 	}
 	out := h.ask("enc " + st.name + " " + txt)
@@ -130,7 +130,7 @@ func (h *H) typedCase(st storable, ci int, v reflect.Value, mode string) {
 	if err == nil {
 		s, rerr := RenderString(st.t, back, false)
 		if rerr != nil {
-			res.Note("typed: render decoded %s: %v", st.name, rerr)
+			res.Fatalf("typed: render decoded %s: %v", st.name, rerr)
 			return
 		}
 		want = "ok " + s
